@@ -362,14 +362,14 @@ class SymSrc(_SrcBase):
         self.eng.assume_expr(c)
         return proxies.EagerInt(v) if eager else SymInt(v)
 
-    def real(self, name, lo=None, hi=None):
+    def real(self, name, lo=None, hi=None, key=False):
         v = z3.Real(name)
         self._declare(name, 'real', (lo, hi), v)
         if lo is not None:
             self.eng.assume_expr(v >= lo)
         if hi is not None:
             self.eng.assume_expr(v <= hi)
-        return SymReal(v)
+        return proxies.KeyReal(v) if key else SymReal(v)
 
     def flag(self, name):
         v, _ = _cached_var(('bool', name), lambda: z3.Bool(name), None)
@@ -445,8 +445,10 @@ class ConcSrc(_SrcBase):
     def int_in(self, name, domain, eager=False):
         return int(self._get(name))
 
-    def real(self, name, lo=None, hi=None):
-        return float(Fraction(self._get(name)))
+    def real(self, name, lo=None, hi=None, key=False):
+        # exact rational: the code under test then computes exactly what the solver reasons about (Real arithmetic)
+        f = Fraction(self._get(name))
+        return int(f) if f.denominator == 1 else f
 
     def flag(self, name):
         return bool(self._get(name))
